@@ -49,6 +49,12 @@ class SymBits(Abs):
         return "SymBits(%s%d bits)" % (self.prefix, len(self.bits))
 
 
+_SERVICES = {"_simplifier": "pysmt.simplifier.Simplifier", "_substituter": "pysmt.substituter.MGSubstituter",
+             "_qfo": "pysmt.oracles.QuantifierOracle", "_theoryo": "pysmt.oracles.TheoryOracle",
+             "_sizeo": "pysmt.oracles.SizeOracle", "_ao": "pysmt.oracles.AtomsOracle",
+             "_typeso": "pysmt.oracles.TypesOracle", "_serializer": "pysmt.printers.HRSerializer"}
+
+
 class World(Domain):
     def __init__(self, repo=None):
         self.repo = repo or get_repo()
@@ -56,6 +62,10 @@ class World(Domain):
         self.intern = {}
         self.next_id = 1
         self.created = []          # every create_node call, in order
+        self.lazy_services = False
+        self.typecheck = False     # run the interpreted type checker on every constructed node
+        self._real_stc = None
+        self._typed = set()
         self.kinds = {}            # symbolic variable -> 'int' | 'real' | 'bv' | 'width' | 'idx'
         self.varwidth = {}         # bit-vector valued variable -> its width (int or SymInt)
         self.it = None
@@ -147,6 +157,9 @@ class World(Domain):
             return it.call(it.getattr(self.env.attrs["_type_manager"], "FunctionType"),
                            [self.tyobj(sort[1]), [self.tyobj(s) for s in sort[2]]])
         if k == "CUSTOM":
+            if len(sort) > 2 and sort[2]:
+                decl = it.call(it.getattr(self.env.attrs["_type_manager"], "Type"), [sort[1], len(sort[2])])
+                return it.call(decl, [self.tyobj(s) for s in sort[2]])
             return it.call(it.getattr(self.env.attrs["_type_manager"], "Type"), [sort[1], 0])
         raise Unsupported("tyobj %s" % (sort,))
 
@@ -171,11 +184,16 @@ class World(Domain):
             return ("FUN", self.sort_of_tyobj(t.attrs["_return_type"]),
                     tuple(self.sort_of_tyobj(p) for p in t.attrs["_param_types"]))
         if c == "PySMTType":
+            if t.attrs.get("args"):
+                return ("CUSTOM", t.attrs.get("basename"), tuple(self.sort_of_tyobj(a) for a in t.attrs["args"]))
             return ("CUSTOM", t.attrs.get("basename"))
         raise Unsupported("sort of %r" % (t,))
 
     def symbol(self, name, sort):
-        return self.mk_node(self.ops.id("SYMBOL"), (), (name, self.tyobj(sort)))
+        n = self.mk_node(self.ops.id("SYMBOL"), (), (name, self.tyobj(sort)))
+        if isinstance(name, str):
+            self.mgr.attrs["symbols"].setdefault(name, n)     # as FormulaManager._create_symbol does
+        return n
 
     def bool_const(self, v):
         return self.mgr.attrs["true_formula" if v else "false_formula"]
@@ -317,6 +335,10 @@ class World(Domain):
                 return True, Prim(lambda i, a, k: self.free_symbols(a[0]), "fvo." + name)
             if obj.cls == ENV and name == "fvo":
                 return True, obj.attrs["_fvo"]
+            if obj.cls == ENV and self.lazy_services and name in _SERVICES and name not in obj.attrs:
+                # environment services are instantiated (interpreted from the real classes) on first use
+                obj.attrs[name] = self.new_walker(_SERVICES[name], obj)
+                return True, obj.attrs[name]
             if obj.cls == "collections.FNodeContent" and name not in obj.attrs:
                 raise AbsRaise("AttributeError", (name,))
         if isinstance(obj, ExtRef):
@@ -354,7 +376,14 @@ class World(Domain):
         names = ["node_type", "args", "payload"]
         vals = dict(zip(names, args))
         vals.update(kwargs)
-        return self.mk_node(vals["node_type"], tuple(it.iterate(vals["args"])), vals.get("payload"))
+        n = self.mk_node(vals["node_type"], tuple(it.iterate(vals["args"])), vals.get("payload"))
+        if self.typecheck and id(n) not in self._typed:
+            # construction-time type check by the real SimpleTypeChecker, interpreted
+            if self._real_stc is None:
+                self._real_stc = self.new_walker(STC, self.env)
+            t = it.call(it.getattr(self._real_stc, "get_type"), [n])
+            self._typed.add(id(n))
+        return n
 
     def call(self, it, f, args, kwargs):
         if isinstance(f, ExtRef):
